@@ -152,6 +152,24 @@ impl SemanticState {
             )?,
         );
 
+        // `r#Foo` and `Foo` are two paths but one Rust identifier: the emitted file would define it twice.
+        let declared: Vec<&str> = module
+            .definitions
+            .iter()
+            .map(|d| d.name.as_str())
+            .chain(module.extern_types.iter().map(|(name, _)| name.as_str()))
+            .collect();
+        for (index, name) in declared.iter().enumerate() {
+            if let Some(other) = declared[..index]
+                .iter()
+                .find(|other| *other != name && util::plain_ident(other) == util::plain_ident(name))
+            {
+                anyhow::bail!(
+                    "type `{name}` of module `{path}` is defined more than once (as `{other}`)"
+                );
+            }
+        }
+
         for definition in &module.definitions {
             let new_path = path.join(definition.name.as_str().into());
             if self.type_registry.get(&new_path).is_some() {
